@@ -39,7 +39,7 @@ RULE = (
     "order {restoration->model, model->restoration}; real family: kind x shapes x dtypes x MonochromaticReduction mode (8 colour modes + '' + callable + none) x "
     "balancing {none; thorough: + ScalingModel} x TVD {none, chambolle, anisotropic/isotropic bregman} x model {none, LinearModel, ScalingModel, unit ScalingModel} x "
     "order x extras {0,2}, minus the a-priori exclusions listed under bounds. Inside every lattice point: all 4 diff options x probes {baseline object itself, "
-    "two mixed-sign patterns, sub-threshold pattern, +-impulse pair; thorough: + all-positive, all-negative and (stub family) the complete +-impulse basis}; every "
+    "two mixed-sign patterns, sub-threshold pattern, +-impulse pair; thorough: + all-positive, all-negative and (stub family, special image class, same probe dtype) the complete +-impulse basis}; every "
     "probe on a fresh analysis, then on ONE shared analysis an Eulerian circuit over all ordered pairs (repeats included) of the history probes = all 2-call "
     "histories, followed by every remaining probe. Non-trivial = the reference output of the lattice point is not identically zero over its probes; distinct = "
     "distinct case descriptor."
@@ -53,9 +53,9 @@ ASSUMPTIONS = [
 ]
 
 DIFFS = ["positive", "negative", "absolute", "plain"]
-SHAPES = {"quick": [(1, 1), (3, 4), (5, 2)], "thorough": [(1, 1), (1, 3), (3, 3), (3, 4), (5, 2), (2, 5)]}
+SHAPES = {"quick": [(1, 1), (3, 4), (5, 2)], "thorough": [(1, 1), (1, 3), (3, 3), (3, 4), (5, 2)]}
 DTYPES = ["uint8", "uint16", "float32", "float64"]
-REAL_DTYPES = {"quick": ["float64", "uint8"], "thorough": ["float64", "float32", "uint8", "uint16"]}
+REAL_DTYPES = {"quick": ["float64", "uint8"], "thorough": ["float64", "float32", "uint8"]}
 REAL_RED = ["none", "", "red", "green", "blue", "red+green", "gray", "negative-key", "hsv", "callable"]
 REAL_BAL = {"quick": ["none"], "thorough": ["none", "scaling"]}
 REAL_RES = ["none", "chambolle", "anisotropic bregman", "isotropic bregman"]
@@ -76,8 +76,8 @@ def describe(tier):
         "real_reductions": REAL_RED,
         "real_restorations": REAL_RES,
         "real_balancing": REAL_BAL[tier],
-        "probes": ["self", "mixed", "mixed2", "small", "impulses"] + ([] if tier == "quick" else ["pos", "neg", "every +-16 impulse (stub family)"]),
-        "history": "Eulerian circuit over all ordered pairs of " + ("{self, mixed, mixed2}" if tier == "quick" else "the 7 main probes") + ", then every other probe once",
+        "probes": ["self", "mixed", "mixed2", "small", "impulses"] + ([] if tier == "quick" else ["pos", "neg", "every +-16 impulse (stub family, image class special, probe dtype same)"]),
+        "history": "Eulerian circuit over all ordered pairs of " + ("{self, mixed, mixed2}" if tier == "quick" else "{self, mixed, mixed2, small, impulses}") + ", then every other probe once",
         "excluded_a_priori": ["real: bregman TVD x shapes with a unit extent", "real: hsv x integer dtypes", "real: hsv x diff option plain", "real: colour reductions x scalar images"],
         "real_models": REAL_MOD,
         "probe_dtype": ["same"] if tier == "quick" else ["same", "other-float"],
@@ -388,11 +388,12 @@ def run_case(case, r):
     n_hist = 3  # quick: all ordered pairs of {self, mixed, mixed2}
     if tier == "thorough":
         probe_ints += [("pos", B + np.abs(D1)), ("neg", B - np.abs(D1))]
-        n_hist = 7
+        n_hist = 5
     base_img = _image(kind, cls, _to_dtype(B, dt), "base")
     extra_imgs = [_image(kind, cls, _to_dtype(B + _ints(shape, rgb, "noise", k), dt), f"extra{k}") for k in range(extras)]
     probes = [("self", base_img)] + [(n, _image(kind, cls, _to_dtype(a, pdt), "probe")) for n, a in probe_ints]
-    if tier == "thorough" and fam == "stub":
+    n_main = len(probes)
+    if tier == "thorough" and fam == "stub" and cls == "special" and case["pdtype"] == "same":
         for pos in range(B.size):
             for sgn in (16, -16):
                 a = B.copy()
@@ -423,7 +424,7 @@ def run_case(case, r):
             continue  # hsv of a signed difference is outside the documented colour model
         thr = _ref_threshold(refs, opt, extras_p, base_p)
         fresh_digest = {}
-        for pi, (pname, probe) in enumerate(probes):
+        for pi, (pname, probe) in enumerate(probes[:n_main]):
             want = _ref_pipeline(refs, order, _ref_diff(opt, probes_p[pi], base_p), thr)
             any_nonzero = any_nonzero or bool(np.any(want["out"] != 0))
             del log[:]
@@ -487,10 +488,16 @@ def run_case(case, r):
             # probes (every ordered pair, repeats included), then every other probe once
             try:
                 an = make(opt)
-                for pi in _euler(min(n_hist, len(probes))) + list(range(n_hist, len(probes))):
+                for pi in _euler(min(n_hist, n_main)) + list(range(n_hist, n_main)):
                     res = an(probes[pi][1])
                     r.check(_res_digest(canon, res, _phys(res)) == fresh_digest[pi], cell("history", opt),
                             "analysis(A); analysis(B) returns for B exactly what a fresh analysis returns", diff=opt, probe=probes[pi][0])
+                # complete +-impulse basis (thorough): on the used object, against the reference
+                for pi in range(n_main, len(probes)):
+                    res = an(probes[pi][1])
+                    want = _ref_pipeline(refs, order, _ref_diff(opt, probes_p[pi], base_p), thr)
+                    r.check(_same(res.img, want["out"], tol) and _phys(res) == physs[pi], cell("composition", opt),
+                            "analysis(baseline +- impulse) = the reference composition, with the probe's metadata", diff=opt, probe=probes[pi][0], got=res.img, want=want["out"])
             except Exception as e:
                 r.fail(cell("no-exception"), "repeated calls succeed", diff=opt, exception=f"{type(e).__name__}: {e}")
             for pi in range(len(probes)):
